@@ -8,12 +8,16 @@ TECHNIQUE = ("TLA+ specification of the database contents as sets defined from t
              "StopTracing / Terminate within the bounds; every stream is replayed on the real tracing.DBTracer over a "
              "recording DataRecorder stub and, for a seeded sample, over the real SQLite recorder read back with the real reader")
 LEVEL_TEXT = ("Exhaustive within bounds: all interleavings of <=3 tasks with <=2 tracing windows and one unmatched "
-              "StopTracing; <=2 tasks with tags and <=3 milestones (same and different instants) and one window; tags / "
-              "milestones that name a task before it starts. The verdict is the rows the real tracer wrote.")
-LEVEL_NOTE = ("Bounded (see cfg files). Not explored because the statement does not fix the meaning: StartTracing while "
-              "tracing is on, tags/milestones of ended tasks, calls after Terminate. Event times are distinct except for "
-              "milestones, so 'running while tracing was on' has one reading. The SQLite read-back runs on a seeded sample "
-              "(100 streams quick, 1500 thorough); the stub backend sees every stream. TLC and Go are trusted.")
+              "StopTracing; <=2 tasks with tags and <=3 milestones and one window; tags / milestones that name a task before "
+              "it starts; each with distinct event times ('step' clock) and, in the same-instant profiles, with the clock "
+              "free to stay put before ANY event (times 0..2, or frozen), so starts, ends, riders and Start/StopTracing "
+              "coincide in time in every order. The verdict is the rows the real tracer wrote.")
+LEVEL_NOTE = ("Bounded (profiles in DBTracer.tla, selected by the cfg files). 'Running while tracing was on' is read by event "
+              "order (a zero-length overlap at a shared instant counts iff the task is running when tracing is switched on, "
+              "or starts while it is on); TLC checks that this reading is bracketed by the timestamp readings. Not explored "
+              "because the statement does not fix the meaning: StartTracing while tracing is on, tags/milestones of ended "
+              "tasks, calls after Terminate. The SQLite read-back runs on a seeded sample (100 streams quick, 1500 "
+              "thorough); the stub backend sees every stream. TLC and Go are trusted.")
 
 OPS = {0: "start", 1: "end", 2: "tag", 3: "milestone", 4: "StartTracing", 5: "StopTracing", 6: "Terminate"}
 
@@ -114,7 +118,7 @@ def nontrivial(b):
     started = set(e[1] for e in h if e[0] == 0)
     rec = set(t[0] for t in b["tasks"])
     return (rec and started - rec) or any(e[0] in (2, 3) for e in h) or sum(1 for e in h if e[0] == 4) > 1 or \
-        any(e[0] == 5 and e[3] == 1 for e in h)
+        any(e[0] == 5 and e[3] == 1 for e in h) or any(h[i][2] == h[i + 1][2] for i in range(len(h) - 1))
 
 
 def run(ck):
@@ -160,13 +164,15 @@ def run(ck):
     ck.cov["exhaustive"] = True
     ck.cov["rule"] = ("TLC enumerates every stream of the bounded model (tasks started in ID order; start/end/tag/milestone "
                       "events interleaved in every way with StartTracing, StopTracing — also while tracing is off — and a final "
-                      "Terminate at every possible point). Each terminated stream is one behaviour (all distinct), replayed on a "
+                      "Terminate at every possible point; in the same-instant profiles additionally every assignment of non-decreasing "
+                      "times 0..maxT to the events). Each terminated stream is one behaviour (all distinct), replayed on a "
                       "fresh DBTracer; the trace / tag / milestone / segment rows must equal the specification's sets (rows as "
                       "bags; one milestone per task and instant, any of the candidates). Non-trivial = a stream where some "
-                      "started task is recorded and another is not, or with tags/milestones, two windows or an unmatched stop.")
+                      "started task is recorded and another is not, or with tags/milestones, two windows, an unmatched stop or two events at one instant.")
     ck.assumptions += [
         "tracing starts off and is switched only by StartTracing/StopTracing (the DBTracer has no time-range option)",
-        "start, end and tracing calls have pairwise distinct times; only milestones may share an instant with the previous event",
+        "'running while tracing was on' is decided by the order of the calls, not by timestamps: events at one instant are still ordered",
+        "same-instant profiles: the clock stays or advances by one before every event, times 0..2 (or a frozen clock); other profiles use distinct times",
         "a tracing window still open at Terminate is closed by it (segment ends at the termination time)",
         "StartTracing while tracing is on, tags/milestones after a task's end and calls after Terminate are not explored",
         "stub backend = what is handed to DataRecorder.InsertData; SQLite backend is read after Terminate and recorder Close",
